@@ -7,7 +7,8 @@ Families:
   cycles   all universes of <=2 (quick) / <=3 (thorough) templates whose bodies are sequences of <=2 call/parameter items: every call
            graph incl. self loops and 2-/3-cycles
   syntax   every string over the 24-symbol template alphabet up to length 4 (quick) / 5 (thorough)
-Oracle: a str comes back; no exception; CPU <= 2 s per expansion; len(output) <= 64 x (len(page) + sum len(templates)) + 4096.
+Oracle: a str comes back; no exception; CPU <= 13 units per expansion (a unit = what 5000 plain template calls cost in the same process
+at the same moment; 13 units = 2 s on the idle sandbox); len(output) <= 64 x (len(page) + sum len(templates)) + 4096.
 """
 import time
 
@@ -92,7 +93,7 @@ class C03(InputProp):
     rule = ("families magic/alias/cycles/syntax (see mc/props/c03.py), each enumerated completely on Expander(text, pagename, wikidb)."
             "expandTemplates(); distinct = distinct (family, outcome text) classes")
     assumptions = ("argument shapes are a fixed list of 28 (5 for the third argument)",
-                   "the 'out of proportion' clause is judged as: CPU <= 2 s and output <= 64 x input + 4096 characters per expansion")
+                   "the 'out of proportion' clause is judged as: CPU <= the cost of 65000 plain template calls measured in the same process at the same moment (2 s on the idle sandbox; best of up to 3 runs) and output <= 64 x input + 4096 characters per expansion")
     chunk = 2000
     soft_timeout = 20.0
     hard_timeout = 60.0
@@ -238,12 +239,10 @@ class C03(InputProp):
         if case[0] == "same-expander":
             return self.run_same_expander(case[1])
         text, db, extra = self.build(case)
-        t0 = time.process_time()
         try:
-            res = self.Expander(text, pagename="Test page/sub", wikidb=db).expandTemplates()
+            res, dt = self.timed_expand(text, db)
         except Exception as e:
             return {"key": "exc", "viol": [{"sig": exc_signature(e), "msg": "expanding %r raised %s: %s" % (text[:200], type(e).__name__, str(e)[:200])}]}
-        dt = time.process_time() - t0
         viol = []
         if not isinstance(res, str):
             viol.append({"sig": "not-a-string", "msg": "expanding %r returned %r" % (text[:200], type(res))})
@@ -251,9 +250,51 @@ class C03(InputProp):
         limit = 64 * (len(text) + extra) + 4096
         if len(res) > limit:
             viol.append({"sig": "output-out-of-proportion:" + self.fname(case), "msg": "expanding %r (%d chars) produced %d characters" % (text[:200], len(text), len(res))})
-        if dt > 2.0:
-            viol.append({"sig": "cpu-out-of-proportion:" + self.fname(case), "msg": "expanding %r took %.1f s CPU" % (text[:200], dt)})
-        return {"key": (case[0], res[:60]), "steps": 1, "viol": viol}
+        counters = None
+        if dt > self.CPU_TRIGGER_S:
+            units, runs = self.cpu_in_units(text, db, dt)
+            counters = {"cpu_measured_in_units": 1, "cpu_reruns": runs - 1}
+            if units > self.CPU_LIMIT_UNITS:
+                viol.append({"sig": "cpu-out-of-proportion:" + self.fname(case), "msg": "expanding %r took %.1f s CPU = %.0f x the cost of %d plain template calls, in the best of %d runs (limit %d x)" % (
+                    text[:200], dt, units, self.UNIT_CALLS, runs, self.CPU_LIMIT_UNITS)})
+        return {"key": (case[0], res[:60]), "steps": 1, "viol": viol, "counters": counters}
+
+    # The CPU clause is judged in units of work, not in seconds: one unit is the CPU time that expanding a page of UNIT_CALLS plain
+    # template calls takes in this process at this moment (0.155 s on the idle sandbox), and one expansion may cost CPU_LIMIT_UNITS of
+    # them (13 units = 65000 plain calls: 2 s on the idle sandbox).  Seconds alone are not a property of the code: the same expansion
+    # was seen to take 0.85 s in one run and more than 2 s of process CPU time in another (a freshly restored, busy machine).
+    # A case is looked at when it takes more than CPU_TRIGGER_S; it is a violation when it costs more than the limit in EVERY one of up
+    # to three runs, each divided by the unit measured right before and after it.
+    UNIT_CALLS = 5000
+    CPU_LIMIT_UNITS = 13
+    CPU_TRIGGER_S = 0.5
+
+    def timed_expand(self, text, db):
+        t0 = time.process_time()
+        res = self.Expander(text, pagename="Test page/sub", wikidb=db).expandTemplates()
+        return res, time.process_time() - t0
+
+    def cpu_unit(self):
+        best = None
+        for _ in range(2):
+            dt = self.timed_expand("{{T|x}} " * self.UNIT_CALLS, self.db("en"))[1]
+            best = dt if best is None else min(best, dt)
+        return max(best, 1e-4)
+
+    def cpu_in_units(self, text, db, dt):
+        """-> (cost of the expansion in units: the smallest of the runs made, number of runs)"""
+        after = self.cpu_unit()
+        best, runs = dt / after, 1
+        # (a run that took several seconds is not repeated twice inside the watchdog: the fresh-process replays repeat it)
+        while best > self.CPU_LIMIT_UNITS and runs < 3 and dt * (3 - runs) < 8.0:
+            before = after
+            try:
+                dt = self.timed_expand(text, db)[1]
+            except Exception:
+                break  # (judged by the first run, which returned)
+            after = self.cpu_unit()
+            best, runs = min(best, dt / ((before + after) / 2)), runs + 1
+        return best, runs
 
     def fname(self, case):
         fam, c = case
